@@ -259,5 +259,5 @@ def u_erank(U):
         U.post('three-or-more-cores-take-the-quadratic-branch', p, d >= 3, axioms=ex.axioms)
         U.post('inner-mode-sizes-sum-to-a-positive-number', p, a >= 1, axioms=ex.axioms)
         U.post('boundary-term', p, b == T.d1(arr[0]) + T.d1(arr[d - 1]), axioms=ex.axioms)
-        U.post('defining-quadratic', list(p.pc), M.to_real(a) * x * x + M.to_real(b) * x == M.to_real(sz))
-        U.post('non-negative-root', list(p.pc), x >= 0)
+        U.post('defining-quadratic', list(p.pc), M.to_real(a) * x * x + M.to_real(b) * x == M.to_real(sz), qf=True)
+        U.post('non-negative-root', list(p.pc), x >= 0, qf=True)
